@@ -95,6 +95,7 @@ def add_reps(rng, t):
         elif r < 4: t["rep"] = "typed"
         elif r < 5 and not t["m"]: t["rep"] = "nil"
         if rng.chance(0.15): t["ptr"] = True
+        elif rng.chance(0.08): t["wrap"] = rng.pick(["pi", "pip", "pipi", "ppi"])
     elif "a" in t:
         t["a"] = [add_reps(rng, v) for v in t["a"]]
         r = rng.below(10)
@@ -102,6 +103,9 @@ def add_reps(rng, t):
         elif r < 4: t["rep"] = "typed"
         elif r < 5 and not t["a"]: t["rep"] = "nil"
         if rng.chance(0.1): t["ptr"] = True
+        elif rng.chance(0.08): t["wrap"] = rng.pick(["pi", "pip", "pipi"])
+    elif "s" in t or "b" in t:
+        if rng.chance(0.06): t["wrap"] = rng.pick(["pi", "pipi"])
     elif "i" in t:
         t["rep"] = rng.pick(["int", "int8", "int16", "int32", "int64"])
     elif "u" in t:
